@@ -736,7 +736,13 @@ func runC02(o *opts) error {
 	defer qb.close()
 
 	stats := map[string]map[string]int{"rows": {}, "sort_keys": {}, "skip": {}, "limit": {}, "filter": {}, "kind": {}, "skip_plus_limit": {}, "strategy_x_sum": {}}
-	bump := func(group, key string) { stats[group][key]++ }
+	bump := func(group, key string) {
+		if stats[group] == nil {
+			stats[group] = map[string]int{}
+		}
+		stats[group][key]++
+	}
+	em := &c02Emitter{qb: qb, cases: cases, impl: impl, objs: c02NewObjects(), bump: bump}
 
 	if rp := o.get("replaycase", ""); rp != "" {
 		return c02Replay(o, qb, rp, cases, impl)
@@ -890,6 +896,38 @@ func runC02(o *opts) error {
 			}
 			emit(d, store, kind, q)
 		}
+		// one compiled query object executed several times (and mutated by the caller in between)
+		if !d.hasNaN {
+			fam := c02PlainFamily(d, store)
+			em.view = c02View{}
+			em.objs.setEntities(fam, em.view)
+			em.programs(r, fam, 40)
+		}
+	}
+	// parent / child / grandchild stores (plain and extended) over one entities bucket with a mixed population
+	nFam := 3
+	if o.thorough() {
+		nFam = 24
+	}
+	for fi := 0; fi < nFam; fi++ {
+		var fam *c02Family
+		switch fi {
+		case 0:
+			fam = c02ProbeFamily()
+		case 1:
+			fam = c02MakeFamily(r, qTwinDataset(qGenDataset(r, 4, false)))
+		default:
+			fam = c02MakeFamily(r, qGenDataset(r, 1+r.intn(11), false))
+		}
+		if err := qb.c02LoadFamily(fam); err != nil {
+			return err
+		}
+		cases.line("%s", fam.d.line())
+		impl.line("D")
+		cases.line("%s", fam.layoutLine())
+		impl.line("L")
+		bump("family_rows", strconv.Itoa(len(fam.d.rows)))
+		em.familyQueries(r, fam, o.thorough())
 	}
 	// sort specifications longer than SortMax over rows that tie on the leading fields (c19long.go)
 	if err := c19LongEmitC02(o, qb, cases, impl, bump, emit); err != nil {
@@ -907,6 +945,9 @@ func c02Replay(o *opts, qb *qBolt, path string, cases, impl *lineWriter) error {
 	}
 	var d *qDataset
 	var store boltz.ConfigurableStore
+	var fam *c02Family // set by an L line: the dataset is shared by a chain of stores
+	view := c02View{}
+	objs := c02NewObjects()
 	for _, line := range strings.Split(string(data), "\n") {
 		f := strings.Fields(line)
 		if len(f) == 0 {
@@ -921,19 +962,64 @@ func c02Replay(o *opts, qb *qBolt, path string, cases, impl *lineWriter) error {
 			if store, err = qb.load(d); err != nil {
 				return err
 			}
+			fam, view = c02PlainFamily(d, store), c02View{}
+			objs.setEntities(fam, view)
 			cases.line("%s", line)
 			impl.line("D")
+		case "L":
+			if d == nil || len(f) != 3 {
+				return fmt.Errorf("layout before dataset")
+			}
+			fam = &c02Family{d: d}
+			if fam.levels, err = c02ParseDigits(f[1], len(d.rows)); err != nil {
+				return err
+			}
+			if fam.owners, err = c02ParseDigits(f[2], len(qCols)); err != nil {
+				return err
+			}
+			if err = qb.c02LoadFamily(fam); err != nil {
+				return err
+			}
+			objs.setEntities(fam, view)
+			cases.line("%s", line)
+			impl.line("L")
+		case "V":
+			if fam == nil || len(f) != 3 {
+				return fmt.Errorf("view before dataset")
+			}
+			tier, _ := strconv.Atoi(f[1])
+			view = c02View{tier: tier, ext: f[2] == "1"}
+			if fam.stores[view] == nil {
+				return fmt.Errorf("the dataset has no %s store (layout line missing)", view.name())
+			}
+			objs.setEntities(fam, view)
+			cases.line("%s", line)
+			impl.line("V")
 		case "Q", "X":
 			if d == nil {
 				return fmt.Errorf("query before dataset")
 			}
-			text, err := qTextFromCase(f, d)
+			q, err := qQueryFromCase(f)
+			if err != nil {
+				return err
+			}
+			if q.filter, err = c02FilterFromBits(fam, view, f[1]); err != nil {
+				return err
+			}
+			cases.line("%s", line)
+			impl.line("%s", qRunBolt(qb.db, fam.stores[view], q.text()))
+			fmt.Fprintf(os.Stderr, "replay query text: %s\n", q.text())
+		case "R":
+			if d == nil {
+				return fmt.Errorf("program before dataset")
+			}
+			q, ops, err := c02ParseProgram(f, fam, view)
 			if err != nil {
 				return err
 			}
 			cases.line("%s", line)
-			impl.line("%s", qRunBolt(qb.db, store, text))
-			fmt.Fprintf(os.Stderr, "replay query text: %s\n", text)
+			impl.line("%s", c02RunProgram(qb.db, fam.stores[view], objs, q.text(), ops))
+			fmt.Fprintf(os.Stderr, "replay query text: %s\n", c02ProgramText(q, ops))
 		}
 	}
 	return nil
